@@ -962,7 +962,7 @@ func (ctx *RenderContext) evaluateNode(node Node) (interface{}, error) {
 		// Log result if debug is enabled
 		conditionResult := ctx.toBool(condResult)
 		if IsDebugEnabled() {
-			LogDebug("Ternary condition result: %v (type: %T, raw value: %v)", conditionResult, condResult, condResult)
+			LogDebug("Ternary condition result: %v (type: %T, raw value: %s)", conditionResult, condResult, stableString(condResult))
 			LogDebug("Branches: true=%T, false=%T", n.trueExpr, n.falseExpr)
 		}
 
